@@ -454,6 +454,10 @@ func init() {
 				slLen(sl).S, r.S, r.S, slArr(sl).S, v.S, slArr(sl).S))
 			return []Term{r}
 		}},
+		// lo.Ternary(c, a, b): both operands are already evaluated (Go call semantics)
+		"github.com/samber/lo.Ternary": {pure: true, fn: func(fv *FuncVerifier, call *ast.CallExpr, args []Term, st *State) []Term {
+			return []Term{ite(args[0], args[1], args[2])}
+		}},
 		"slices.Contains":                           contains,
 		"github.com/samber/lo.Contains":             contains,
 		"slices.Clone":                              clone,
